@@ -3,6 +3,7 @@
 -/
 import RaftWal.Generated.WalLogic
 import RaftWal.Proofs.WalDecide
+import RaftWal.Proofs.WalDecideScans
 import RaftWal.Proofs.WalRefine
 import RaftWal.Generated.Codec
 import RaftWal.Proofs.CrashSpecLink
@@ -120,6 +121,28 @@ theorem deleteRange_decision_from_source (w : Wal) (min max : Nat) (hmin : min <
     (hf : w.firstIndex < 2^64) (hl : w.lastIndex < 2^64) :
     w.delDecision min max = Generated.deleteRangeDecide min max w.firstIndex w.lastIndex :=
   RaftWal.delDecision_eq_source w min max hmin hmax hf hl
+
+/-- **the model's DeleteRange is the code's decision applied with the code's scans**: `applyDelVia` runs the model's
+    truncations with their scan conditions replaced by the predicates translated from wal.go (`truncateHeadVia
+    Generated.truncateHeadStopsAt`, `truncateTailVia Generated.truncateTailKeeps` — copies of `Wal.truncateHead` /
+    `Wal.truncateTail` that ask the translated predicate at every step of the scan) -/
+theorem deleteRange_via_source (w : Wal) (min max : Nat) (hc : w.closed = false)
+    (hmin : min < 2^64) (hmax : max < 2^64) (hf : w.firstIndex < 2^64) (hl : w.lastIndex < 2^64) :
+    w.deleteRange min max = w.applyDelVia (Generated.deleteRangeDecide min max w.firstIndex w.lastIndex) :=
+  RaftWal.deleteRange_via_source w min max hc hmin hmax hf hl
+
+theorem truncateHead_is_source_scan (w : Wal) (n : Nat) :
+    w.truncateHead n = w.truncateHeadVia Generated.truncateHeadStopsAt n := RaftWal.truncateHead_eq_via w n
+
+theorem truncateTail_is_source_scan (w : Wal) (n : Nat) :
+    w.truncateTail n = w.truncateTailVia Generated.truncateTailKeeps n := RaftWal.truncateTail_eq_via w n
+
+/-- `StoreLogs` with the two guards translated from wal.go is the model's, for indexes below 2^64 − 1 (the bound is
+    tight: `ScansCex.storeLogs_eq_via_needs_hypothesis_uint64`) -/
+theorem storeLogs_is_source_guards (w : Wal) (logs : List Log)
+    (h0 : w.lastIndex + 1 < 2^64) (h : ∀ l ∈ logs.dropLast, l.index + 1 < 2^64) :
+    w.storeLogs logs = w.storeLogsVia Generated.storeRebases Generated.storeRefusesIndex logs :=
+  RaftWal.storeLogs_eq_via w logs h0 h
 
 /-- the two decisions seeded changes broke, stated outright on the translated code: "everything up to MaxUint64" from at
     or below the first index is a head truncation to `last+1` (no wrap to 0), and a range touching only the first entry is
